@@ -5,7 +5,7 @@ Require Extraction.
 From Coq Require Import ExtrOcamlBasic.
 From Coq Require Import String ZArith List Bool.
 From Nexus Require Import Transport.GoArith Transport.RawOps Transport.RawFrame Transport.RawSpec
-  Transport.RawGen Transport.RawHandshake Transport.PeerDiscipline gen.GenC15.
+  Transport.RawGen Transport.RawHandshake Transport.PeerDiscipline Transport.WsPeer gen.GenC15.
 
 Definition m_recv := recv (fun _ => true) gen_params.
 Definition m_select := select_ops gen_params.
@@ -22,6 +22,13 @@ Definition m_machine (sched : list who) (body hdr payload : list Z) : state :=
 (* the reference instance, for the monitor side of a verdict *)
 Definition s_recv := recv (fun _ => true) spec_params.
 
+(* websocket sender loop on a queue given as "is this message serializable":
+   the indices of the messages written *)
+Definition m_ws_send (keepalive : bool) (pattern : list bool) : list (list Z) :=
+  ws_send (Z * bool)%type (fun m => if snd m then Some (fst m :: nil) else None)
+          (if keepalive then ws_send_keepalive else ws_send_plain)
+          (combine (map Z.of_nat (seq 0 (length pattern))) pattern).
+
 Extraction "c15model"
   server_handshake client_handshake accept_handshake connect_handshake
   accept_closes_on_error connect_closes_on_error get_proto_byte server_accept_args server_attaches_peer
@@ -29,4 +36,4 @@ Extraction "c15model"
   c_magic c_rawsocketJSON c_rawsocketMsgpack c_rawsocketCBOR
   m_recv m_select m_send_writes m_send_drop m_send_header m_send_ops m_discipline m_mutex
   m_machine tags wire_bytes contiguousb finished
-  s_recv.
+  s_recv m_ws_send.
